@@ -15,8 +15,9 @@ def obligations(tier):
                              "cbor_stream_decode on the bytes fires the matching callback with the identical value and read == written" % (name, dom),
                         bounds="value domain complete (%s), n in 0..10" % dom, sample={"encoder": name, "domain": dom}))
         if tier == "thorough" and dom in ("2^64", "2^32"):
-            obls.append(Obl("enc_dec_inverse_%s_z3" % name, "h_enc.c", enc_defines(e), variant="ndbg", unwind=12, timeout=900, backend="z3",
-                            desc="same query, NDEBUG build, z3 back end", bounds="value domain complete (%s)" % dom))
+            # second back end: CaDiCaL (z3 does not finish the shortest-form ladders of array_start/tag within 900 s)
+            obls.append(Obl("enc_dec_inverse_%s_cadical" % name, "h_enc.c", enc_defines(e), variant="ndbg", unwind=12, timeout=900, backend="cadical",
+                            desc="same query, NDEBUG build, CaDiCaL back end", bounds="value domain complete (%s)" % dom))
     return obls
 
 
